@@ -304,6 +304,51 @@ func init() {
 			}
 		}
 		c.Programs += 8
+		// a definition that asks for the name an anyOf property already took, and whose schema equals SEVERAL of the
+		// branch types declared under numeric suffixes (Root.item: anyOf of n object branches that differ only in the
+		// definition they refer to; $defs.RootItem of the same shape): which declaration it re-uses must not vary
+		for nb := 2; nb <= 4; nb++ {
+			for _, kw := range []string{"anyOf", "allOf"} {
+				defs := sgen.M{"Product": sgen.M{"type": "object", "properties": sgen.M{"sku": sgen.M{"type": "string"}}}}
+				var branches []any
+				for b := 0; b < nb; b++ {
+					dn := fmt.Sprintf("Kind%c", 'A'+b)
+					defs[dn] = sgen.M{"type": "object", "properties": sgen.M{fmt.Sprintf("f%d", b): sgen.M{"type": "integer"}}}
+					branches = append(branches, sgen.M{"type": "object", "properties": sgen.M{"product": sgen.M{"$ref": "#/$defs/" + dn}}, "required": []any{"product"}})
+				}
+				// the definition lives in a second file, so that it is generated when the reference is reached — after
+				// the property `item` has taken the name
+				common := core.MustJSON(sgen.M{"$schema": "x", "$id": "urn:c12:common", "$defs": sgen.M{
+					"RootItem": sgen.M{"type": "object", "properties": sgen.M{"product": sgen.M{"$ref": "#/$defs/Product"}}, "required": []any{"product"}},
+					"Product":  sgen.M{"type": "object", "properties": sgen.M{"sku": sgen.M{"type": "string"}}}}})
+				root := sgen.M{"$id": "urn:c12", "type": "object", "$defs": defs,
+					"properties": sgen.M{"item": sgen.M{kw: branches}, "legacyItem": sgen.M{"$ref": "common.json#/$defs/RootItem"}}}
+				content := core.MustJSON(root)
+				cfg := core.DefaultCfg()
+				cfg.Tags = []string{"json"}
+				cfg.RootType = "Root"
+				dir := filepath.Join(tmp, fmt.Sprintf("taken%d-%s", nb, kw))
+				_ = os.MkdirAll(dir, 0o755)
+				_ = os.WriteFile(filepath.Join(dir, "common.json"), common, 0o644)
+				ref := genSrc(dir, "schema.json", content, cfg, "urn:c12")
+				for rep := 0; rep < 40; rep++ {
+					rd := filepath.Join(dir, fmt.Sprint(rep))
+					_ = os.MkdirAll(rd, 0o755)
+					_ = os.WriteFile(filepath.Join(rd, "common.json"), common, 0o644)
+					got := genSrc(rd, "schema.json", content, cfg, "urn:c12")
+					c.Eval(fmt.Sprintf("taken-name-equal-to-several|%s|%d|%v", kw, nb, got == ref))
+					if got != ref {
+						fails++
+						if fails <= 3 {
+							c.Fail("oracle", fmt.Sprintf("a definition equal to several suffixed declarations (%s of %d branches): repetition %d of the same generation gives other bytes", kw, nb, rep),
+								M{"kind": "relational", "variant": "repeat", "cfg": cfg, "schema": string(content), "files": M{"common.json": string(common)}, "reference_output": clip(ref, 1500), "variant_output": clip(got, 1500)}, false)
+						}
+						break
+					}
+				}
+				c.Programs++
+			}
+		}
 		// an extension-less reference with SEVERAL candidate files of different content: the first listed resolve
 		// extension wins, every time (30 generations per order of the extension list)
 		for oi, exts := range [][]string{{".json", ".yaml"}, {".yaml", ".json"}, {".yml", ".json", ".yaml"}} {
